@@ -11,6 +11,7 @@ CONSTANTS
   Parts = {TRUE, FALSE}
   MaxCancel = 1
   MaxFault = 1
+  Zeros = FALSE
   Dev = {}
   Record = FALSE
 INVARIANTS
